@@ -11,31 +11,31 @@ PIPES = {
     "C03": ["lines:signal", "lines:processed", "header"],
     "C04": ["leader"],
     "C16": ["volume"],
+    "C14": ["summary"],
 }
 TABLE_OWNERS = {
     "C03": ("ceos_alos2.sar_image.metadata",),
     "C04": ("ceos_alos2.sar_leader.",),
     "C16": ("ceos_alos2.volume_directory.metadata",),
+    "C14": ("ceos_alos2.summary",),
 }
-MIN_ENTRIES = {"C03": 100, "C04": 300, "C16": 12}
+MIN_ENTRIES = {"C03": 100, "C04": 300, "C16": 12, "C14": 35}
 
 
 def pipelines(repo, L):
     key = id(repo)
     if key not in _CACHE:
         p = Pipelines(repo, L)
-        p.run()
         _CACHE[key] = p
     return _CACHE[key]
 
 
-def link_tables(chk, repo, L, pid):
+def link_tables(chk, repo, L, pid, r_schema=None, r_coll=None):
     P = pipelines(repo, L)
     ref = load_reference()
-    schemas = P.schemas()
-    r_schema = f"{pid}-T3"
-    r_dangle = f"{pid}-T3d"
-    r_coll = f"{pid}-T3c"
+    schemas = P.schemas(PIPES[pid])
+    r_schema = r_schema or f"{pid}-T3"
+    r_coll = r_coll or f"{pid}-T3c"
     chk.rule(r_schema, "output schema derived by shape inference (group path, name, dims, source field, conversions, attrs) == reference schema", MIN_ENTRIES[pid])
     chk.rule(r_coll, "no two surfacing keys collide when nesting layers are flattened or keys renamed", 1)
     chk.trusted.append("typing rules of toolz/builtins in vlib/shapes_lib.py; spec/schema_reference.json (bootstrapped from the pinned commit, reviewed entry by entry against the struct layouts)")
